@@ -447,7 +447,13 @@ impl AssemblyCode {
                     {
                         remove_first = true;
                     }
-                    if i2.mnemonic == AsmMnemonic::ORA && i2.dasm_operand == "#0" && !i2.protected {
+                    // ORA #0 leaves A as it is and sets the flags of A: it is only useless
+                    // when the flags are those of A already
+                    if i2.mnemonic == AsmMnemonic::ORA
+                        && i2.dasm_operand == "#0"
+                        && !i2.protected
+                        && flags == FlagsState::A
+                    {
                         remove_second = true;
                     }
                     if i1.mnemonic == AsmMnemonic::LDA
